@@ -8,6 +8,16 @@ import (
 // Grammar-derived enumeration of spec strings (DESIGN.md section 5, "size"):
 // size = number of leaves + one per `...` + one per bracket / parenthesis pair.
 
+// Tick, when set, is called from inside the enumeration loops: generating a large size class takes seconds and
+// the caller may need to show that it is alive.
+var Tick func()
+
+func tick() {
+	if Tick != nil {
+		Tick()
+	}
+}
+
 type SpecGen struct {
 	Leaves []string // leaf spellings, e.g. "-a", "--aa", "-ab", "OPTIONS", "X", "--"
 	atoms  map[int][]string
@@ -59,6 +69,7 @@ func (g *SpecGen) choiceOf(n int) []string {
 	r = append(r, g.atomsOf(n)...)
 	for k := 1; k < n; k++ {
 		for _, a := range g.atomsOf(k) {
+			tick()
 			for _, rest := range g.choiceOf(n - k) {
 				r = append(r, a+"|"+rest)
 			}
@@ -80,6 +91,7 @@ func (g *SpecGen) seqOf(n int) []string {
 	r = append(r, g.choiceOf(n)...)
 	for k := 1; k < n; k++ {
 		for _, c := range g.choiceOf(k) {
+			tick()
 			for _, rest := range g.seqOf(n - k) {
 				r = append(r, c+" "+rest)
 			}
@@ -97,7 +109,10 @@ var optAfterEnd = regexp.MustCompile(`(^|[ (\[|])-- .*(-[A-Za-z]|OPTIONS)`)
 func (g *SpecGen) Specs(n int) []string {
 	var out []string
 	seen := map[string]bool{}
-	for _, s := range g.seqOf(n) {
+	for i, s := range g.seqOf(n) {
+		if i&1023 == 0 {
+			tick()
+		}
 		for ddFix.MatchString(s) {
 			s = ddFix.ReplaceAllString(s, "$1-- $2")
 		}
